@@ -174,6 +174,8 @@ func init() {
 		},
 		[]string{"interleavings of several workers", "ttl arithmetic overflow"}).
 		rule("R7-decision-tables", ruleTables(tblClaim, tblCompleteTask)).
+		rule("M-DISPATCH", ruleDispatch).
+		// seed C07-9: "a holder that renews its lease in time keeps the task" presupposes that every heartbeat command of a batch is executed (always-executed), not answered from an earlier one
 		rule("R1R2-sql-spec", ruleSQLSpec(kindsOf("tasks"))).
 		rule("schema", ruleSchema(taskSchema)).
 		rule("R9-command-provenance", ruleCmdProvenance("UpdateTaskCommand", "CreateTaskCommand", "HeartbeatTasksCommand", "ReadTasksCommand", "ReadTaskCommand", "ReadPromiseCommand")).
